@@ -48,6 +48,16 @@ CHECKS = {
             'Termination = bound on token-reader calls (200*(n+8)); prefix preservation is checked '
             'for prefixes closed by a group.',
             'DESIGN.md 5 C06'),
+    'C11': ('exploration',
+            'bounded-exhaustive token soups x parsing-state configuration catalogue + random long '
+            'strings; relational oracle over the whole token sequence (lossless, progress, '
+            'peek-pure, rewind)',
+            'All strings <= 3 tokens over the significant alphabet under 24 (quick) / ~200 '
+            '(thorough, pairwise) parsing-state configurations, strict and tolerant reader, plus '
+            'random 60-token strings; only the public reader API is driven.',
+            'Token equality on public fields; a LatexWalkerTokenParseError legitimately ends a '
+            'strict reading.',
+            'DESIGN.md 5 C11'),
     'C20': ('exploration',
             'bounded-exhaustive enumeration against a counting reference model',
             'Every string <= 7 (quick) / <= 9 (thorough) over {a, NL, CR, space}, every position, '
